@@ -40,6 +40,7 @@ type Contract struct {
 	Line        int
 	Lemma       bool
 	Assumes     []string
+	Uses        map[string]bool // engine lemmas switched on for this function ("uses sum_congruence")
 }
 
 var reFuncHdr = regexp.MustCompile(`^func\s+(?:\(\s*(?:(\w+)\s+)?\*?([\w.\[\],]+)\s*\)\s*\.\s*)?([\w$]+(?:\[[\w.,\s]*\])?)\s*\(([^)]*)\)\s*(?:\(([^)]*)\)|(\w+))?\s*$`)
@@ -230,6 +231,21 @@ func (p *Prog) parseContractFile(rel, file, src string) []string {
 		case "assume":
 			if cur != nil {
 				cur.Assumes = append(cur.Assumes, rest)
+			}
+		case "uses":
+			if cur == nil {
+				fail("uses outside a func block")
+				continue
+			}
+			if cur.Uses == nil {
+				cur.Uses = map[string]bool{}
+			}
+			for _, u := range splitNames(rest) {
+				if u != "sum_congruence" {
+					fail("uses: unknown engine lemma " + u)
+					continue
+				}
+				cur.Uses[u] = true
 			}
 		case "define":
 			// define name(p1, p2) = expr   (file-level macro, usable in all contracts)
@@ -1438,7 +1454,7 @@ func (e *Engine) evalSum(y *EQuant, env *evalEnv, bv string, body Val) Val {
 		// congruence lemma (valid for any two sums over the same range start, by induction on n): if the summands
 		// agree on [lo, n) the sums agree. Emitted between the instances of one contract sum expression evaluated
 		// in different program states (e.g. a slice before and after an unrelated append).
-		if len(prms) == 0 {
+		if rc := e.prog.Contracts[e.rootKey]; len(prms) == 0 && rc != nil && rc.Uses["sum_congruence"] {
 			if e.sumByExpr == nil {
 				e.sumByExpr = map[*EQuant][]sumInst{}
 			}
